@@ -768,10 +768,10 @@ func init() {
 				f := buildPNG(rng, pngOpt{w: 100, h: 100, depth: 8, ctype: 2, nAnc: nAnc, icc: icc, iccName: "p", iccLevel: 6, iccPos: rng.Intn(nAnc + 1), body: body, smallAnc: rng.Intn(2) == 0})
 				f.Name = fmt.Sprintf("png-body%d%s-icc%d", body, bodyFill, len(icc))
 				files = append(files, f)
-				jo := jpegOpt{w: 100, h: 100, precision: 8, ncomp: 3, nBefore: rng.Intn(3), nAfter: rng.Intn(3), icc: icc, chunkSize: 0, iccAfterSOF: rng.Intn(2) == 0, body: body, realTables: tables,
+				jo := jpegOpt{w: 100, h: 100, precision: 8, ncomp: 3, progressive: rep%2 == 1, nBefore: rng.Intn(3), nAfter: rng.Intn(3), icc: icc, chunkSize: 0, iccAfterSOF: rng.Intn(2) == 0, body: body, realTables: tables,
 					app2AfterICC: rng.Intn(2) == 0, bigTail: pick(rng, 0, 0, 3)}
 				j := buildJPEG(rng, jo)
-				j.Name = fmt.Sprintf("jpeg-body%d%s-icc%d-app2AfterICC%v-bigTail%d-iccAfterSOF%v", body, bodyFill, len(icc), jo.app2AfterICC, jo.bigTail, jo.iccAfterSOF)
+				j.Name = fmt.Sprintf("jpeg-body%d%s-icc%d-prog%v-app2AfterICC%v-bigTail%d-iccAfterSOF%v", body, bodyFill, len(icc), jo.progressive, jo.app2AfterICC, jo.bigTail, jo.iccAfterSOF)
 				files = append(files, j)
 				kind := []string{"vp8", "vp8l", "vp8x"}[rng.Intn(3)]
 				wo := webpOpt{kind: kind, w: 100, h: 100, icc: icc, flagICC: icc != nil && kind == "vp8x", body: body}
